@@ -20,8 +20,9 @@ pub const SIM_FLOOR: f64 = 1e-6;
 pub enum KM {
     Linear,
     Gaussian(f64),
-    /// (constant, degree) with degree in {1,2,3}
-    Polynomial(f64, u8),
+    /// (constant, degree), degree >= 0; a fractional degree is only generated together with
+    /// non-negative records and constant (base >= 0), where the power is defined
+    Polynomial(f64, f64),
 }
 
 /// kernel value and the absolute tolerance that goes with it
@@ -55,17 +56,62 @@ pub fn kernel_ref(m: &KM, a: &[f64], b: &[f64]) -> (f64, f64) {
             }
             let base = s + c;
             let e_base = TOL_ULPS * EPS * (scale + c.abs()) + TINY;
-            let mut v = 1.0;
-            for _ in 0..*d {
-                v *= base;
+            let v = pow_ref(base, *d);
+            if is_small_integer(*d) {
+                // |d base^(d-1)| e_base, with the base taken at the far end of its error interval
+                let mut slope = *d;
+                let mut i = 1.0;
+                while i < *d {
+                    slope *= base.abs() + e_base;
+                    i += 1.0;
+                }
+                (v, TOL_ULPS * EPS * v.abs() + slope * e_base + TINY)
+            } else {
+                // base >= 0 by construction: x^d is monotone there, so the images of the end points of the
+                // error interval of the base bound the propagated error; plus the error of the reference itself
+                let lo = pow_ref((base - e_base).max(0.0), *d);
+                let hi = pow_ref(base + e_base, *d);
+                let prop = (hi - v).abs().max((v - lo).abs());
+                let cond = if base > 0.0 { 1.0 + (d * base.ln()).abs() } else { 1.0 };
+                (v, prop + TOL_ULPS * EPS * cond * v.abs() + TINY)
             }
-            let dd = *d as f64;
-            let mut slope = dd;
-            for _ in 1..*d {
-                slope *= base.abs() + e_base;
-            }
-            (v, TOL_ULPS * EPS * v.abs() + slope * e_base + TINY)
         }
+    }
+}
+
+pub fn is_small_integer(d: f64) -> bool {
+    d.fract() == 0.0 && (0.0..=16.0).contains(&d)
+}
+
+/// base^d without `powf`/`powi`: repeated multiplication for integral d, sqrt(sqrt(base))^(4d) for
+/// multiples of 1/4, exp(d ln base) otherwise; NaN for a negative base with a fractional degree
+pub fn pow_ref(base: f64, d: f64) -> f64 {
+    if is_small_integer(d) {
+        let mut v = 1.0;
+        let mut i = 0.0;
+        while i < d {
+            v *= base;
+            i += 1.0;
+        }
+        return v;
+    }
+    if !(base >= 0.0) || !(d > 0.0) {
+        return f64::NAN;
+    }
+    let q = 4.0 * d;
+    if q.fract() == 0.0 && q <= 64.0 {
+        let r = base.sqrt().sqrt();
+        let mut v = 1.0;
+        let mut i = 0.0;
+        while i < q {
+            v *= r;
+            i += 1.0;
+        }
+        v
+    } else if base == 0.0 {
+        0.0
+    } else {
+        (d * base.ln()).exp()
     }
 }
 
